@@ -279,3 +279,7 @@ package common
 //@   functional
 //@   trusted
 //@ end
+
+//@ func (*GlobalConfig).IsGlobalIgnoreErrType
+//@   pure
+//@ end
